@@ -521,9 +521,49 @@ class _Col:
         return [Num(v) for v in self.vals]
 
 
+def _expected_boundary_count(row):
+    n = 0
+    m = row.get("mcs")
+    if m:
+        for i in m.get("boundary_atoms_products", []):
+            if isinstance(i, dict):
+                n += 1
+            elif isinstance(i, list):
+                for j in i:
+                    if isinstance(j, dict):
+                        n += 1
+    return n
+
+
 class _Model:
+    """Arbitrary model: the output for a row is the world's confidence of that reaction as long as the features
+    computed by the real feature code are the row's own (num_boundary, bond/ring change); a row that reaches the
+    model with foreign feature values gets a different output (a model may depend on any feature)."""
+
     def predict_proba(self, X):
-        return _Col([W.conf.get(r.get("input_reaction"), W.conf_default) for r in X.rows])
+        out = []
+        for r in X.rows:
+            c = W.conf.get(r.get("input_reaction"), W.conf_default)
+            own = r.get("num_boundary") == _expected_boundary_count(r) and r.get("bond_change_merge") == 0 and r.get("ring_change_merge") == 0
+            if not own:
+                c = c - 1 if c >= 1 else c + 1
+            out.append(c)
+        return _Col(out)
+
+
+class _FeatMol:
+    def GetNumBonds(self):
+        return 0
+
+    def GetAtoms(self):
+        return []
+
+
+class _FeatChem:
+    @staticmethod
+    def MolFromSmiles(s, *a, **k):
+        ok, _, _ = W.side(str(s))
+        return _FeatMol() if ok else None
 
 
 class _ConfNP:
@@ -645,7 +685,13 @@ def install(coarse_mcs=True):
         _need(m, n)
     m.pd = _ConfPD
     m.np = _ConfNP
-    m.count_boundary_atoms_products_and_calculate_changes = lambda rows, rc, mc: rows
+    # count_boundary_atoms_products_and_calculate_changes stays real (its RDKit calls are stubbed: no bonds, no rings)
+    import synrbl.SynAnalysis.analysis_utils as _au
+
+    _need(_au, "Chem")
+    _need(_au, "CalcNumRings")
+    _au.Chem = _FeatChem
+    _au.CalcNumRings = lambda mol: 0
     m.calculate_chemical_properties = lambda rows: rows
     # real tokens of the universe
     import json
